@@ -1101,4 +1101,59 @@ theorem encode_decode_static (T : Tables) (edition : Nat) (enforce : Enforce) (f
     { r := R.ofBytes (padSection4 edition (encodeData ss dataFlag 0).2).bytes, invalid := false } [] pad hp hI hb
   exact ⟨st', by simpa using e, hinv⟩
 
+/-! ### decidable forms of the layout hypotheses (for concrete instances) -/
+
+def widthOKb (m : Node) : Bool :=
+  (match m.enc.type with
+   | .ccitt => decide (8 ≤ m.enc.nbits)
+   | .ieee => decide (m.enc.nbits = 32 ∨ m.enc.nbits = 64)
+   | .numeric | .chngRef | .codetable | .flagtable => decide (1 ≤ m.enc.nbits ∧ m.enc.nbits ≤ 64)
+   | _ => true) && decide (m.afW ≤ 64)
+
+theorem widthOK_of_b (m : Node) (h : widthOKb m = true) : widthOK m := by
+  unfold widthOKb at h
+  unfold widthOK
+  rw [Bool.and_eq_true] at h
+  refine ⟨?_, by simpa using h.2⟩
+  have h1 := h.1
+  cases ht : m.enc.type <;> simp only [ht] at h1 ⊢ <;> first | trivial | simpa using h1
+
+def pairb (n m : Node) : Bool :=
+  decide (n.enc = m.enc) && decide (n.flags.skipped = m.flags.skipped) &&
+  (n.flags.skipped ||
+    ((mkvalNode n).val.isSome && decide ((mkvalNode n).afW = m.afW) && widthOKb m) ||
+    (!(mkvalNode n).val.isSome && decide (nodeBits m = [])))
+
+theorem pair_of_b (n m : Node) (h : pairb n m = true) : Pair n m := by
+  unfold pairb at h
+  simp only [Bool.and_eq_true, Bool.or_eq_true, decide_eq_true_eq, Bool.not_eq_true'] at h
+  obtain ⟨⟨h1, h2⟩, h3⟩ := h
+  refine ⟨h1, h2, ?_⟩
+  intro hs
+  rcases h3 with (h | ⟨⟨a, b⟩, c⟩) | ⟨a, b⟩
+  · rw [hs] at h; exact absurd h (by simp)
+  · exact Or.inl ⟨a, b, widthOK_of_b m c⟩
+  · exact Or.inr ⟨a, b⟩
+
+def pairsb : List Node → List Node → Bool
+  | [], [] => true
+  | n :: ns, m :: ms => pairb n m && pairsb ns ms
+  | _, _ => false
+
+theorem pairs_of_b : ∀ (ns ms : List Node), pairsb ns ms = true → List.Forall₂ Pair ns ms := by
+  intro ns
+  induction ns with
+  | nil => intro ms h; cases ms with
+    | nil => exact List.Forall₂.nil
+    | cons _ _ => simp [pairsb] at h
+  | cons n ns ih => intro ms h; cases ms with
+    | nil => simp [pairsb] at h
+    | cons m ms =>
+      simp only [pairsb, Bool.and_eq_true] at h
+      exact List.Forall₂.cons (pair_of_b n m h.1) (ih ms h.2)
+
+theorem forall2_length {α β} {R : α → β → Prop} : ∀ {l₁ : List α} {l₂ : List β}, List.Forall₂ R l₁ l₂ → l₁.length = l₂.length
+  | _, _, .nil => rfl
+  | _, _, .cons _ h => by simp [forall2_length h]
+
 end Bufr
